@@ -16,6 +16,14 @@ Tie of the Lean small-step model (Model/Reuse.lean) to /repo, on every run:
      `_suboptimizers[<thread ident>]` and `_cache[h]`; `last_opt` reads the caller's ident;
      `AutoOptimizer` stores only `_hyperoptimizers_by_thread[<thread ident>]`.
 
+  N  re-entrant queries (harness/c16_nest.py, Model/ReuseNest.lean, op `c16.nrun`): a hyper method
+     registered through `register_hyper_function` puts nested queries to the shared objects while
+     the outer search runs (depth 1-3, both interfaces, cache hits and misses at every level).
+  Q  overlapping pool-parallel sub-searches (harness/c16_pool.py, Model/ReusePool.lean, op
+     `c16.pool`): a deterministic user-supplied executor as `parallel=`.
+  Every forced schedule of E is also run through `c16.nrun` segment by segment: the kind of
+  shared access that ended each segment must be what the model's thread reaches next.
+
 Implementation-side oracle (no model): `tree.inputs / output / size_dict / N` of every returned
 tree equal the query's -- under forced schedules, under free-running threads with
 `sys.setswitchinterval(1e-6)`, and sequentially, for the string presets, Auto / AutoHQ with and
@@ -42,29 +50,42 @@ from . import common, gen
 PROP = "C16"
 LEVEL = "proof"
 LEVEL_TEXT = (
-    "Lean 4 theorem over a small-step interleaving semantics of ReusableOptimizer.search and "
+    "Lean 4 theorems over small-step interleaving semantics of ReusableOptimizer.search/__call__ and "
     "AutoOptimizer.search (one step = a thread's code up to its next shared dict access): for every "
     "schedule, any number of threads with any query queues, every behaviour of the trial functions, every "
     "hash function (collisions allowed), all overwrite / cache_only settings, each returned tree belongs to "
     "the contraction its call asked about (per_thread_isolation, by the inductive invariant "
     "'_suboptimizers[t] holds, between store and fetch, an optimizer searched on t's current query only; "
-    "no step of another thread writes key t'). sequential_fresh is the one-thread case for the "
+    "no step of another thread writes key t'). Re-entrant queries (a trial function of a running sub-search "
+    "queries the same or another optimizer object, to any depth, through either interface) are covered by a "
+    "second semantics with a stack of frames per thread: nested_isolation for every nesting tree and every "
+    "schedule, nested_path_isolation for the path interface under a separating hash, and a decide "
+    "counter-example for the order 'register the sub-optimizer, then search' (register_first_counterexample). "
+    "Overlapping pool-parallel sub-searches: with a fresh `_futures` list per search every search reports only "
+    "trials it dispatched itself and moves exactly like C08's single-search model, for every interleaving and "
+    "completion order (pool_isolation, pool_refines_single_search); refuted for one shared list "
+    "(shared_list_counterexample). sequential_fresh is the one-thread case for the "
     "non-caching AutoOptimizer with a fresh sub-optimizer per call; for the code as found (per-thread "
     "HyperOptimizer re-used, `best` persists) the statement is refuted by a concrete history "
     "(sequential_fresh_counterexample, DESIGN 7k) and proved under the guard 'at most one hard query per "
-    "thread id' (sequential_fresh_partial). The model is tied to /repo on every run by equality "
-    "correspondence under forced schedules (exhaustive for small programs), plus free-running stress."
+    "thread id' (sequential_fresh_partial). The models are tied to /repo on every run by equality "
+    "correspondence under forced schedules (exhaustive for small programs; per segment the kind of shared "
+    "access reached is compared as well), by real nested queries issued from a registered hyper function, by "
+    "a deterministic user-supplied executor for overlapping pool searches, plus free-running stress."
 )
 LEVEL_NOTE = (
     "Proof over the marked granularity: atomicity of single dict get/set under the GIL is assumed, "
     "pre-emption inside one bytecode-level dict operation is not modelled; the on-disk side of DiskDict, "
     "hash collisions of fingerprint 'b' (C14) and failures of _reconstruct_tree are out of scope; trial "
-    "functions are assumed to build trees over the inputs they receive (C05)."
+    "functions are assumed to build trees over the inputs they receive (C05); on_trial_error='raise' (an "
+    "exception of a nested query aborting the outer search) is not modelled; the pool model takes worker "
+    "results as an oracle and imposes no control flow on the event sequence (it proves more than needed)."
 )
-TECHNIQUE = ("Lean 4 proof (inductive invariant over a small-step interleaving semantics, frame lemma per "
-             "thread slot) + schedule-forced differential correspondence with the real optimizers + AST facts")
+TECHNIQUE = ("Lean 4 proof (inductive invariants over small-step interleaving semantics: frame lemma per thread "
+             "slot, stack-of-frames invariant for re-entrancy, list-identity invariant for the pool) + "
+             "schedule-forced differential correspondence with the real optimizers + AST facts")
 LEAN_MODULES = ["CotengraVerif.Props.C16", "CotengraVerif.Props.C16Nest", "CotengraVerif.Props.C16Pool",
-                "CotengraVerif.Props.C16Facts"]
+                "CotengraVerif.Props.C16Iface", "CotengraVerif.Props.C16Facts"]
 THEOREMS = [
     "Cotengra.C16.per_thread_isolation",
     "Cotengra.C16.per_thread_isolation_from",
@@ -92,27 +113,39 @@ THEOREMS = [
     "Cotengra.C16.pool_refines_single_search",
     "Cotengra.C16.shared_list_counterexample",
     "Cotengra.C16.futures_fresh_per_search",
+    # the path cache of the functional interface (Props/C16Iface.lean)
+    "Cotengra.C16.iface_path_isolation",
+    "Cotengra.C16.iface_key_collision_counterexample",
+    "Cotengra.C16.iface_key_is_full_tuple",
 ]
 TRUSTED = [
     "Lean 4.33 kernel; axioms ⊆ {propext, Classical.choice, Quot.sound}",
-    "hand-written model Model/Reuse.lean (+ Model/Hyper.lean) of reusable.py:141-143,166-178,231-289 and "
-    "presets.py:41-123, tied by the forced-schedule correspondence on the explored schedules only",
+    "hand-written models Model/Reuse.lean, Model/ReuseNest.lean, Model/ReusePool.lean (+ Model/Hyper.lean) of "
+    "reusable.py:141-143,161-172,240-297, presets.py:41-123 and hyper.py:571-575,625-659, tied by the "
+    "forced-schedule correspondences on the explored schedules only",
     "CPython: single dict get/set/contains are atomic under the GIL; threading.get_ident() is unique "
     "among live threads",
     "the harness-side instrumentation (wrappers installed as instance attributes; the controller that "
-    "serialises threads) and the AST fact extractor (gen_facts)",
+    "serialises threads; the registered hyper function 'verif-nest'; the deterministic executor) and the "
+    "AST fact extractor (gen_facts)",
 ]
 ASSUMPTIONS = [
     "yield points = after each shared access (hash_query, sub-search return, _suboptimizers store, _cache "
-    "read/write, _get_optimizer_hyper_threadsafe return, end of query); finer pre-emption is explored only "
-    "by the free-running stress runs",
+    "read/write, _get_optimizer_hyper_threadsafe return, a nested query being put, a pool submission, a pool "
+    "harvest, end of query); finer pre-emption is explored only by the free-running stress runs",
     "distinct contractions get distinct 'a' fingerprints except the deliberately colliding pair in the pool",
 ]
 RULE = ("pool of 8 small contractions (easy and hard for AutoOptimizer's cutoff, one pair with equal "
         "fingerprint); programs = 1-3 queries per thread, 2-3 threads; modes {Reusable overwrite no/yes/"
         "improved, cache_only, ReusableRandomGreedy, Auto cached, Auto plain}; schedules: all interleavings "
-        "(DFS) of small programs + random ones; non-trivial = at least two threads touching one object or a "
-        "repeated key or a second hard query on one thread; distinct by (mode, programs, effective schedule)")
+        "(DFS) of small programs + random ones; nested: random nesting trees (depth 1-3, <= 10 nested queries, "
+        "2 trials per sub-search, 10% scripted trial failures, 25% path interface, 1-2 objects of random kinds) "
+        "run sequentially and under random / exhaustive schedules of 2-3 threads; pool: 2-3 threads x 1-2 "
+        "queries through one ReusableHyperOptimizer(parallel=<deterministic executor>), completion policies "
+        "inline/fifo/lifo/random, with and without a stop rule, all interleavings of two one-query threads + "
+        "random ones; non-trivial = at least two threads touching one object or a "
+        "repeated key or a second hard query on one thread or a nested query; distinct by (mode, programs, "
+        "effective schedule)")
 BUDGET = {"quick": 700, "thorough": 3300}
 
 warnings.filterwarnings("ignore", message="Trial error")
@@ -1022,8 +1055,39 @@ def extract_futures_facts():
             "rebinders": rebinders, "foreign_uses": sorted(set(foreign))}
 
 
+def extract_iface_facts():
+    """`interface.hash_contraction` returns the tuple of everything that defines the contraction
+    (not a hash of it), and `array_contract_path` looks `_PATH_CACHE` up under exactly that key."""
+    src = open(os.path.join(common.REPO, "cotengra", "interface.py")).read()
+    mod = ast.parse(src)
+    fn = next(n for n in mod.body if isinstance(n, ast.FunctionDef) and n.name == "hash_contraction")
+    rets = [n for n in ast.walk(fn) if isinstance(n, ast.Return)]
+    parts, ok = [], len(rets) == 1 and isinstance(rets[0].value, ast.Tuple)
+    if ok:
+        for e in rets[0].value.elts:
+            parts.append(sorted({n.id for n in ast.walk(e) if isinstance(n, ast.Name)} &
+                                {"inputs", "output", "size_dict", "optimize", "kwargs"}))
+    calls_hash = any(isinstance(n, ast.Call) and isinstance(n.func, ast.Name) and n.func.id in ("hash", "id")
+                     for n in ast.walk(fn))
+    names = sorted({x for p_ in parts for x in p_})
+    # `inputs`, `output` must enter the key unprocessed (bare names), the sizes item-wise
+    bare = sorted(e.id for e in (rets[0].value.elts if ok else []) if isinstance(e, ast.Name))
+    acp = next(n for n in mod.body if isinstance(n, ast.FunctionDef) and n.name == "array_contract_path")
+    keyed = any(isinstance(n, ast.Subscript) and isinstance(n.value, ast.Name) and n.value.id == "_PATH_CACHE"
+                and isinstance(n.slice, ast.Name) and n.slice.id == "key" for n in ast.walk(acp))
+    key_from = any(isinstance(n, ast.Assign) and any(isinstance(t, ast.Name) and t.id == "key" for t in n.targets)
+                   and isinstance(n.value, ast.Call) and isinstance(n.value.func, ast.Name)
+                   and n.value.func.id == "hash_contraction" for n in ast.walk(acp))
+    return {"key_names": names, "bare": bare, "calls_hash": bool(calls_hash), "returns_tuple": bool(ok),
+            "cache_keyed_by_it": bool(keyed and key_from)}
+
+
 def gen_facts():
     f = extract_facts()
+    try:
+        fi = extract_iface_facts()
+    except Exception as e:  # noqa
+        fi = {"key_names": [], "bare": [], "calls_hash": True, "returns_tuple": False, "cache_keyed_by_it": False}
     try:
         ff = extract_futures_facts()
     except Exception as e:  # noqa  (the obligation then fails: nothing can be said about the source)
@@ -1075,6 +1139,21 @@ def futuresRebinders : List String := {lst(ff["rebinders"])}
 /-- methods that reach `_futures` other than through `self` -/
 def futuresForeignUses : List String := {lst(ff["foreign_uses"])}
 
+/-- `interface.hash_contraction` has a single `return` of a tuple display -/
+def ifaceKeyReturnsTuple : Bool := {"true" if fi["returns_tuple"] else "false"}
+
+/-- which of its parameters enter that tuple -/
+def ifaceKeyNames : List String := {lst(fi["key_names"])}
+
+/-- which enter it as they are (a bare name as tuple element) -/
+def ifaceKeyBare : List String := {lst(fi["bare"])}
+
+/-- it calls `hash(...)` / `id(...)` -/
+def ifaceKeyCallsHash : Bool := {"true" if fi["calls_hash"] else "false"}
+
+/-- `array_contract_path` indexes `_PATH_CACHE` with `key = hash_contraction(...)` -/
+def ifaceCacheKeyedByIt : Bool := {"true" if fi["cache_keyed_by_it"] else "false"}
+
 end Cotengra.Generated.C16
 """
     return {"CotengraVerif/Generated/FactsC16.lean": src}
@@ -1089,6 +1168,9 @@ def replay_case(case):
     if kind == "nested":
         from . import c16_nest
         return c16_nest.replay_case(case)
+    if kind == "iface":
+        from . import c16_iface
+        return c16_iface.replay_case(case)
     if kind == "schedule":
         sched = list(case["schedule"])
 
@@ -1186,6 +1268,7 @@ def run(ctx, drv):
     try:
         ctx.notes["facts_extracted"] = extract_facts()
         ctx.notes["facts_extracted"]["futures"] = extract_futures_facts()
+        ctx.notes["facts_extracted"]["iface_key"] = extract_iface_facts()
     except Exception as e:
         ctx.obligation("fact extraction from reusable.py / presets.py / path_basic.py", False, repr(e))
 
@@ -1259,6 +1342,9 @@ def run(ctx, drv):
     c16_nest.run(ctx, drv)
     # Q: overlapping pool-parallel sub-searches -- Model/ReusePool.lean, driver op c16.pool
     c16_pool.run(ctx, drv)
+    # I: the path cache of the functional interface -- Model/ReuseIface.lean, driver op c16.iface
+    from . import c16_iface
+    c16_iface.run(ctx, drv)
 
     # S: free-running stress, sequential reuse, presets
     ns = 64 if quick else 800
@@ -1289,6 +1375,9 @@ def search(ctx):
     if c16_nest.search(ctx):
         return True
     if c16_pool.search(ctx):
+        return True
+    from . import c16_iface
+    if c16_iface.search(ctx):
         return True
 
     def report(mode, programs, case, bad):
